@@ -129,6 +129,9 @@ func c02Check(c c02Case, rec *evid.Recorder) *Fail {
 // exhaustive operator pairs and triples: a op1 b op2 c (op3 d) with unary and
 // postfix placements, minimal layout.
 func c02Exhaustive(rec *evid.Recorder, report func(c02Case)) {
+	if sh, _ := shard(); sh != 0 {
+		return
+	}
 	ops := append(append([]string{}, gen.BinOps...), gen.AssignOps...)
 	id := func(s string) *ir.Node { return ir.N(ir.Ident, s) }
 	mk := func(op string, l, r *ir.Node) *ir.Node {
